@@ -26,8 +26,8 @@ RULE = (
     "when some pixel's realised angle is not generic (closer than 0.1 rad to 0, pi/2 or pi), or some "
     "norm ratio is >= 1e3, or a unit differs from m (for the scalar Ltotal facet: float32, or a ratio "
     ">= 1e3, or unit != m); distinct = distinct descriptor hash. Layouts in which the incident beam "
-    "carries a dimension the scattered beam lacks are generated only by the separate facet "
-    "incident_wider, so that the DimensionError they provoke in two_theta cannot stop the other facets."
+    "carries a dimension the scattered beam lacks are not generated (two_theta refuses them with a "
+    "DimensionError; no caller produces them)."
 )
 ULP = 2.0**-52
 TOLERANCES = {
@@ -958,10 +958,11 @@ FACETS = [
     Facet("ltotal_scalar", check_ltotal, strategy=lambda tier: ltotal_case(),
           quick=(2, 400), thorough=(16, 2000), min_nontrivial=0.5,
           doc="total_beam_length(L1, L2) = L1 + L2 in float64 and float32 (result dtype preserved)"),
-    Facet("incident_wider", check_wider, strategy=lambda tier: wider_case(),
-          quick=(1, 60), thorough=(4, 300), min_nontrivial=0.5,
-          doc="layouts in which the incident beam has a dimension that the scattered beam lacks "
-              "(per-pixel source with a single detector position, beams on different dims)"),
+    # A facet "incident_wider" (incident beam carrying a dimension the scattered beam lacks, e.g. a
+    # per-pixel source with one detector) was written and withdrawn: two_theta refuses such layouts
+    # with a DimensionError (in-place `b2 += b1`). That is a clean refusal of a layout no caller
+    # produces (source and sample are scalar or share the detector dims), not a wrong Euclidean value,
+    # so it is outside C03's input domain. See DESIGN.md "False alarms corrected".
 ]
 
 
